@@ -598,7 +598,14 @@ func (a *Application) startProxyGoroutine(
 		// headersReady is never closed and the main goroutine blocks forever.
 		// Ensure it is always signalled before closing the pipe.
 		streamRecorder.ensureHeadersReady()
-		pipeWriter.Close() // Signal end of stream
+		// Signal end of stream. A stream the proxy had to give up on (reset, stall, read
+		// timeout) ends with that error, not with a clean EOF: the translator must not close a
+		// truncated answer with a regular message_stop.
+		if err != nil {
+			pipeWriter.CloseWithError(err)
+		} else {
+			pipeWriter.Close()
+		}
 		proxyErrChan <- err
 	}()
 	return proxyErrChan
